@@ -68,6 +68,13 @@ def gen_cases(rng, n, kinds):
             tot = cum[-1] - cum[si]
             svals = [rng.uniform(-cum[si], tot) for _ in range(5)] + [cum[rng.randrange(nf)] - cum[si], -cum[si] - rng.uniform(0.01, 0.2), tot + rng.uniform(0.01, 0.2), 0.0]
             cases.append(dict(kind=kind, pos=[[hx(a), hx(b)] for a, b in pos], si=si, s=[hx(v) for v in svals]))
+        elif kind == "sperp":
+            si = rng.randrange(0, nf)
+            ei = rng.randrange(si, nf)
+            ang = rng.uniform(0, 6.283)
+            vec = (math.cos(ang) * rng.choice([1.0, 0.3, 2.0]), math.sin(ang) * rng.choice([1.0, 0.3, 2.0]))
+            xs = [rng.uniform(-0.5, 1.0) for _ in range(5)] + [0.0]
+            cases.append(dict(kind=kind, pos=[[hx(a), hx(b)] for a, b in pos], si=si, ei=ei, vec=[hx(vec[0]), hx(vec[1])], x=[hx(v) for v in xs]))
         elif kind == "getdist":
             pts = []
             for _ in range(6):
@@ -120,7 +127,7 @@ def gen_cases(rng, n, kinds):
     return cases
 
 
-HEADER = ("From Coq Require Import ZArith List Bool PrimFloat.\nFrom HT Require Import Field Model_Quadrature.\nImport ListNotations.\n"
+HEADER = ("From Coq Require Import ZArith List Bool PrimFloat.\nFrom HT Require Import Field Model_Quadrature Model_Sperp.\nImport ListNotations.\n"
           "Local Open Scope float_scope.\n"
           "Fixpoint leq (a b : list float) : bool := match a, b with [], [] => true | x :: s, y :: t => PrimFloat.eqb x y && leq s t | _, _ => false end.\n"
           "Fixpoint lleq (a b : list (list float)) : bool := match a, b with [], [] => true | x :: s, y :: t => leq x y && lleq s t | _, _ => false end.\n"
@@ -131,6 +138,9 @@ HEADER = ("From Coq Require Import ZArith List Bool PrimFloat.\nFrom HT Require 
           "Definition k_interp (pos : list (float * float)) (si : nat) (ss : list float) (pts : list (float * float)) (back : list float) : bool :=\n"
           "  let d := calc_distance Fops pos in let q := map (interp_point Fops pos d si) ss in\n"
           "  leq (map fst q) (map fst pts) && leq (map snd q) (map snd pts) && leq (map (get_distance Fops pos d) q) back.\n"
+          "Definition k_sperp (pos : list (float * float)) (si ei : nat) (vec : float * float) (xs sp : list float) (tot : float) (vals : list float) : bool :=\n"
+          "  let m := s_perp Fops pos si vec in\n"
+          "  leq m sp && PrimFloat.eqb (s_perp_total Fops m si ei) tot && leq (map (s_of_sperp Fops m (calc_distance Fops pos) si) xs) vals.\n"
           "Fixpoint ys4 (A : list float) (pos : list (float * float)) (B C : list float) : list float :=\n"
           "  match A, pos, B, C with a :: A', p :: pos', b :: B', c :: C' => integrand Fops a (fst p) b c :: ys4 A' pos' B' C' | _, _, _, _ => [] end.\n"
           "Definition mkseg (pos pts : list (float * float)) (si : nat) (A B C : list float) : @seg float :=\n"
@@ -255,6 +265,16 @@ def correspondence(chk, n, kinds, tag):
         elif c["kind"] == "interp":
             impl_interp_props(chk, c, r)
             items.append(f"k_interp {_pl(c['pos'])} {c['si']}%nat {_fl(c['s'])} {_pl([p[:2] for p in r['points']])} {_fl([p[2] for p in r['points']])}")
+        elif c["kind"] == "sperp":
+            sp = [float.fromhex(v) for v in r["s_perp"]]
+            pp = [(float.fromhex(a), float.fromhex(b)) for a, b in c["pos"]]
+            vx, vy = float.fromhex(c["vec"][0]), float.fromhex(c["vec"][1])
+            raw = [(-vy * (q[0] - pp[c["si"]][0]) + vx * (q[1] - pp[c["si"]][1])) for q in pp]
+            if any(b < a for a, b in zip(raw[c["si"]:-1], raw[c["si"] + 1:])) or any(b < a for a, b in zip(raw[:c["si"]], raw[1:c["si"] + 1])):
+                stats["sperp:reflected"] = stats.get("sperp:reflected", 0) + 1
+            if any(b < a for a, b in zip(sp[:-1], sp[1:])) or sp[c["si"]] != 0.0:
+                chk.fail("sperp:not-monotone", "the perpendicular distance FineContour.interpSSperp interpolates on is not non-decreasing along the contour / not zero at startInd", {"case": c, "s_perp": sp})
+            items.append(f"k_sperp {_pl(c['pos'])} {c['si']}%nat {c['ei']}%nat {_pl([c['vec']])[1:-1]} {_fl(c['x'])} {_fl(r['s_perp'])} {common.fhex(float.fromhex(r['total']))} {_fl(r['values'])}")
         elif c["kind"] == "getdist":
             items.append(f"k_getdist {_pl(c['pos'])} {_pl(c['pts'])} {_fl(r['values'])}")
         else:
